@@ -54,7 +54,7 @@ PROPS = {
     "C08": dict(lean=["Ajson.Props.C08"], streams=["path"], corr_kinds=HEAP, probe_kinds=[], classify=no_probe_kinds,
                 trusted=["independent expression evaluator over plain data in the harness (pathref.go)"]),
     # "userop" registers operators in the process-wide registries: it must stay the LAST stream of the process
-    "C09": dict(lean=["Ajson.Props.C09"], streams=["scan", "path", "userop"], corr_kinds=HEAP + SCAN + ["register", "regdump", "rpnu"], probe_kinds=[], classify=no_probe_kinds,
+    "C09": dict(lean=["Ajson.Props.C09"], streams=["scan", "path", "userop"], corr_kinds=HEAP + SCAN + ["register", "regdump", "rpnu", "regfn", "regconst"], probe_kinds=[], classify=no_probe_kinds,
                 trusted=["independent precedence-climbing grouping + AST interpreter in the harness"]),
     "C10": dict(lean=["Ajson.Props.C10"], streams=["path"], corr_kinds=HEAP, probe_kinds=[], classify=no_probe_kinds,
                 trusted=["Go math.*, math.Pow, math.Pow10, regexp.MatchString, base64 decoding are parameters of the model (oracle answers from the standard library, called directly by the harness)", "IEEE + - * / through Lean's native Float in the driver (opaque to the kernel)"]),
